@@ -5,16 +5,21 @@
   Impl  = MongoModel.Heap: values with object identity, the copy primitives, the table
           `copyDiscipline` (which primitive the code applies at which value-carrying position;
           tied to /repo by the sharing-graph correspondence of harness/props/c07.py), and
-          `step` (what a call does to the world, given a table).
-  Spec  = the invariant `Sep` itself (the property is a law about the implementation).
+          `step` (what a call does to the world — the store, what the caller holds, what the
+          caller's cursors have cached — given a table).
+  Spec  = the invariant `Sep` itself (the property is a law about the implementation): no object
+          twice in the store, nothing stored is held by the caller, nothing a cursor has cached is
+          held by the caller or stored.
   D     = every well-formed step (`Step.wellFormed`: a step names final positions of the table and
-          takes each value from where its position says — no condition on what is copied).  Since
-          the fix "projections and write results hand out copies, and leave the projection
-          argument alone" (5ac4c3c) no position between the store and the caller is left without
-          a copy, so the theorems are stated for ALL operations.  The positions where the code
-          still does not copy (`aliasing_positions`) are inner positions that a later position
-          rebuilds, and the caller → caller class `cursor-cache-alias` (known finding; the store
-          is not involved, `Sep` is not affected; `agg-literal-alias` was repaired in /repo).
+          takes each value from where its position says — no condition on what is copied, none
+          on which position is used where).  Since the fixes "projections and write results hand
+          out copies, and leave the projection argument alone" (5ac4c3c), "$literal and array
+          constants of a pipeline are handed out as copies" (aab0261) and "a cursor hands out a
+          copy of its cached result each time" (b973460) EVERY final position carries a deep copy
+          (`final_positions_copy`): the theorems are stated for ALL operations, cursor re-reads
+          (rewind, indexing, re-iteration, clone, `cursor.distinct`) included, and no exclusion
+          class is left.  The positions where the code does not copy (`aliasing_positions`) are
+          three inner positions that a later position rebuilds.
 -/
 import Proofs.C07
 
@@ -44,14 +49,16 @@ example : chainDeep (copyDiscipline.disc .distinctVal) = true := by decide
 
 /-! ### one step -/
 
-/-- a world with two stored documents (one with an embedded-document `_id`) and an update
-    document the caller holds: `{'$set': {'s': {'p': [ … ]}}}` -/
+/-- a world with two stored documents (one with an embedded-document `_id`), an update
+    document the caller holds: `{'$set': {'s': {'p': [ … ]}}}`, and a cursor that has cached one
+    document (an earlier state of the second one) -/
 def sampleWorld : World :=
   { store := [.node 0 true [("_id", .node 1 true [("k", .atom (.int 1))]),
                             ("a", .node 2 false [("", .node 3 true [("x", .atom (.int 1))])])],
               .node 4 true [("_id", .atom (.int 2)), ("a", .node 5 false [])]],
     held := [.node 6 true [("$set", .node 7 true [("s", .node 8 true [("p", .node 9 false [])])])]],
-    next := 10 }
+    cache := [.node 10 true [("_id", .atom (.int 2)), ("a", .node 11 false [("", .node 12 true [])])]],
+    next := 13 }
 
 /-- `update_many({}, {'$set': {'s': {...}}})`: the update document is patched once, and each of
     the two stored documents receives its own deep copy of the operand -/
@@ -62,8 +69,8 @@ def sampleUpdateMany : Step :=
     [] []
 
 /-- Separation is preserved, under ANY table, by every step in which every value that enters or
-    leaves the store is deep-copied on the way or is a scalar (`Step.safe`), arguments being
-    objects of the caller. -/
+    leaves the store or a cursor's cache is deep-copied on the way or is a scalar (`Step.safe`),
+    arguments being objects of the caller. -/
 theorem step_sep_of_safe (T : Table) (w : World) (s : Step) (hsep : Sep w) (hb : Bounded w)
     (hs : s.safe T w = true) : Sep (step T w s) ∧ Bounded (step T w s) :=
   (Proofs.C07.invC_iff _).mpr
@@ -74,21 +81,33 @@ example : Sep sampleWorld ∧ Bounded sampleWorld ∧
 
 /-- **Separation is preserved by EVERY step of the code's table**: whatever well-formed step
     (any positions of any operation, any values — embedded-document `_id`s, projected arrays of
-    sub-documents, …) runs in a separated world, the world stays separated. -/
+    sub-documents, a cursor computing its results, a cursor handing them out again, …) runs in a
+    separated world, the world stays separated. -/
 theorem step_sep (w : World) (s : Step) (hsep : Sep w) (hb : Bounded w)
     (hw : s.wellFormed = true) (hc : s.callerOwns w = true) :
     Sep (step copyDiscipline w s) ∧ Bounded (step copyDiscipline w s) :=
   step_sep_of_safe copyDiscipline w s hsep hb (Proofs.C07.wellFormed_safe w s hw hc)
 
-/-- `find_one({}, {'a': {'$slice': 1}})` on a document whose `_id` is an embedded document: the
-    projection re-attaches `_id` and takes the array out of the stored document -/
+/-- `find({}, {'a': {'$slice': 1}})` on a document whose `_id` is an embedded document: the
+    projection re-attaches `_id` and takes the array out of the stored document; the cursor keeps
+    the projected document (it becomes entry 1 of the cache of `sampleWorld`) -/
+def sampleProjectedFill : Step :=
+  .fill [.node true [("_id", .piece .projId (.store 0 [0])),
+                     ("a", .node false [("", .piece .projOpStored (.store 0 [1, 0]))])]]
+
+/-- `next(cursor)`, and `cursor.rewind(); next(cursor)` / `cursor[0]`: the document the cursor
+    of `sampleWorld` has cached is handed out -/
+def sampleHandOut : Step := .read [.piece .cursorOut (.cache 0 [])]
+
+/-- the same projected read when projections did not copy (`uncopiedProjectionTable` below): the
+    stored objects themselves go to the caller -/
 def sampleProjectedRead : Step :=
   .read [.node true [("_id", .piece .projId (.store 0 [0])),
                      ("a", .node false [("", .piece .projOpStored (.store 0 [1, 0]))])]]
 
-example : Sep sampleWorld ∧ Bounded sampleWorld ∧ sampleProjectedRead.wellFormed = true ∧
-    sampleProjectedRead.callerOwns sampleWorld = true ∧
-    sampleUpdateMany.wellFormed = true := by decide +kernel
+example : Sep sampleWorld ∧ Bounded sampleWorld ∧ sampleProjectedFill.wellFormed = true ∧
+    sampleProjectedFill.callerOwns sampleWorld = true ∧ sampleHandOut.wellFormed = true ∧
+    sampleProjectedRead.wellFormed = true ∧ sampleUpdateMany.wellFormed = true := by decide +kernel
 
 /-! ### operations whose row copies at every position -/
 
@@ -105,21 +124,27 @@ example : Op.updateMany.copying copyDiscipline = true ∧ Sep sampleWorld ∧ Bo
     sampleUpdateMany.within (Op.updateMany.rows.filter Pos.final) = true ∧
     sampleUpdateMany.callerOwns sampleWorld = true := by decide +kernel
 
-/-- Under the real table EVERY operation copies at every final position that touches the
-    store. -/
+/-- Under the real table EVERY operation — the cursor hand-outs `next` / `cursor[i]` /
+    `cursor.distinct` included — copies at every final position, whatever its flow (the
+    caller → caller and cache → caller positions are no exception any more). -/
 theorem copying_ops : Op.all.filter (Op.copying copyDiscipline) = Op.all := by decide
 
 /-- The positions where the code does not copy: three inner positions (the document handed to
-    `_insert`, the seed and `_id` of an upsert — all rebuilt by `_insert` before they are stored)
-    and the caller → caller class `cursor-cache-alias` (known finding; the store is not involved).
-    (`agg-literal-alias` was a second one; repaired in /repo: pipeline constants are copied.) -/
+    `_insert`, the seed and `_id` of an upsert — all rebuilt by `_insert` before they are stored).
+    (`agg-literal-alias` and `cursor-cache-alias` were two more, both caller → caller; repaired in
+    /repo: pipeline constants and cached cursor results are copied on the way out.) -/
 theorem aliasing_positions :
-    copyDiscipline.aliasing = [.insertArg, .upsertSeed, .upsertId, .cursorCache] := by
+    copyDiscipline.aliasing = [.insertArg, .upsertSeed, .upsertId] := by
   decide
 
-/-- none of them lies between the store and the caller -/
-theorem no_store_caller_alias :
-    ∀ p, p ∈ copyDiscipline.aliasing → p.final = false ∨ p.flow = .callerToCaller := by decide
+/-- none of them is a final position: whatever lands in the store, in a cursor's cache or with the
+    caller has been deep-copied on the way -/
+theorem final_positions_copy :
+    (∀ p, p ∈ copyDiscipline.aliasing → p.final = false) ∧
+    (∀ p, p.final = true → chainDeep (copyDiscipline.disc p) = true) := by
+  constructor
+  · decide
+  · intro p; cases p <;> decide
 
 /-! ### histories -/
 
@@ -139,8 +164,21 @@ def sampleHistory : List Step :=
     .pass [.node 30 true [("$push", .node 31 true [("s.p", .node 32 true [("x", .atom (.int 1))])])]],
     .write [(.updTemp, 3, [])]
       [(0, ⟨[2, 0], false, [], [("", .piece .pushVal (.temp 0 [0, 0]))]⟩)] [] [],
-    .read [.piece .findDoc (.store 0 []), .piece .findDoc (.store 1 [])],
+    .fill [.piece .findDoc (.store 0 []), .piece .findDoc (.store 1 [])],
+    .read [.piece .cursorOut (.cache 0 []), .piece .cursorOut (.cache 1 [])],
     .scribble 1 [] [("", .str "scribbled")] ]
+
+/-- the caller keeps the cursor of that read: it edits the first document it got, rewinds and
+    reads again, indexes the cursor, asks it for the distinct values of `s`, and an update runs in
+    between -/
+def sampleCursorHistory : List Step :=
+  sampleHistory ++
+  [ .scribble 48 [] [("marker", .null)],
+    .read [.piece .cursorOut (.cache 0 []), .piece .cursorOut (.cache 1 [])],
+    .write [(.updTemp, 3, [])]
+      [(1, ⟨[2, 0], false, [], [("", .piece .pushVal (.temp 0 [0, 0]))]⟩)] [] [],
+    .read [.piece .cursorOut (.cache 1 [])],
+    .read [.piece .distinctVal (.cache 0 [2]), .piece .distinctVal (.cache 1 [2])] ]
 
 /-- **Every world reachable through the API is separated** (induction over histories): any
     history of well-formed steps, of any operations, under the code's table. -/
@@ -149,7 +187,9 @@ theorem reachable_sep (steps : List Step) (h : wfRun copyDiscipline World.empty 
   (Proofs.C07.invC_iff _).mpr (Proofs.C07.run_inv copyDiscipline steps _ Proofs.C07.invC_empty
     (Proofs.C07.wfRun_safeRun steps _ h))
 
-example : wfRun copyDiscipline World.empty (sampleHistory ++ [sampleProjectedRead]) = true := by
+example : wfRun copyDiscipline World.empty
+    (sampleCursorHistory ++ [sampleProjectedFill, .read [.piece .cursorOut (.cache 2 [])]]) = true ∧
+    48 ∈ idsL (run copyDiscipline World.empty sampleHistory).held := by
   decide +kernel
 
 /-- the same from any separated world -/
@@ -161,7 +201,8 @@ theorem reachable_sep_from (w : World) (steps : List Step) (hsep : Sep w) (hb : 
       (Proofs.C07.wfRun_safeRun steps w h))
 
 example : Sep sampleWorld ∧ Bounded sampleWorld ∧
-    wfRun copyDiscipline sampleWorld [sampleUpdateMany, sampleProjectedRead] = true := by
+    wfRun copyDiscipline sampleWorld [sampleUpdateMany, sampleProjectedFill, sampleHandOut,
+      .read [.piece .cursorOut (.cache 1 [])]] = true := by
   decide +kernel
 
 /-- under any table, for histories of steps that copy (used below to show which copies are
@@ -172,7 +213,8 @@ theorem reachable_sep_of_safe (T : Table) (w : World) (steps : List Step) (hsep 
     (Proofs.C07.run_inv T steps w ((Proofs.C07.invC_iff w).mp ⟨hsep, hb⟩) h)
 
 example : Sep sampleWorld ∧ Bounded sampleWorld ∧
-    safeRun copyDiscipline sampleWorld [sampleUpdateMany, .read [.piece .findDoc (.store 1 [])]] = true := by
+    safeRun copyDiscipline sampleWorld [sampleUpdateMany, .fill [.piece .findDoc (.store 1 [])],
+      .read [.piece .cursorOut (.cache 1 [])]] = true := by
   decide +kernel
 
 /-! ### what separation buys -/
@@ -184,6 +226,61 @@ theorem mutate_held_noop (w : World) (id : Nat) (f : HVal → HVal) (hsep : Sep 
   Proofs.C07.mutate_held_noop w id f hsep hid
 
 example : Sep sampleWorld ∧ 8 ∈ idsL sampleWorld.held := by decide +kernel
+
+/-- … **nor what a cursor has cached**: whatever the caller does to the documents a cursor gave
+    it, the cursor's own copies stay as they were … -/
+theorem mutate_held_keeps_cache (w : World) (id : Nat) (f : HVal → HVal) (hsep : Sep w)
+    (hid : id ∈ idsL w.held) : (w.mutate id f).cache = w.cache :=
+  Proofs.C07.mutate_held_keeps_cache w id f hsep hid
+
+/-- … so that **reading the cursor again** (`rewind()` and iterate, `cursor[i]`) **gives the value
+    it gave the first time**, whatever happened to the objects handed out before: the result is the
+    cached value, identities forgotten. -/
+theorem reread_unaffected (w : World) (id : Nat) (f : HVal → HVal) (hsep : Sep w)
+    (hid : id ∈ idsL w.held) (i : Nat) (p : List Nat) :
+    ∃ r, (step copyDiscipline (w.mutate id f) (.read [.piece .cursorOut (.cache i p)])).held
+        = (w.mutate id f).held ++ [r] ∧ r.erase = (getAt w.cache i p).erase :=
+  Proofs.C07.reread_unaffected w id f hsep hid i p
+
+example : Sep (step copyDiscipline sampleWorld sampleHandOut) ∧
+    13 ∈ idsL (step copyDiscipline sampleWorld sampleHandOut).held := by decide +kernel
+
+/-- **An in-place edit of a stored document** (an update through the API) **shows neither in what
+    the caller holds nor in what a cursor has cached**. -/
+theorem mutate_stored_keeps_rest (w : World) (id : Nat) (f : HVal → HVal) (hsep : Sep w)
+    (hid : id ∈ idsL w.store) :
+    (w.mutate id f).held = w.held ∧ (w.mutate id f).cache = w.cache :=
+  Proofs.C07.mutate_stored_keeps_rest w id f hsep hid
+
+example : Sep sampleWorld ∧ 3 ∈ idsL sampleWorld.store := by decide +kernel
+
+/-- **Every result is the caller's own**: the objects a read hands out (query results, what a
+    cursor gives again, aggregation output with the constants of its pipeline, distinct values)
+    are new — none of them is an object that existed before the call, none occurs twice. -/
+theorem results_fresh (w : World) (results : List Tpl)
+    (hw : (Step.read results).wellFormed = true) :
+    ∃ new, (step copyDiscipline w (.read results)).held = w.held ++ new ∧ (idsL new).Nodup ∧
+      ∀ a, a ∈ idsL new → w.next ≤ a ∧ a < (step copyDiscipline w (.read results)).next :=
+  Proofs.C07.read_fresh w results hw
+
+example : (Step.read [.piece .cursorOut (.cache 0 []), .piece .cursorOut (.cache 0 []),
+    .piece .aggLiteral (.held 0 [0]), .piece .distinctVal (.cache 0 [1])]).wellFormed = true := by
+  decide +kernel
+
+/-- … hence editing one of them changes nothing else: not the store, not a cursor's cache, not
+    any object the caller held before the call (another result of an earlier read of the same
+    cursor, the pipeline whose constant appears in it, …). -/
+theorem result_private (w : World) (hb : Bounded w) (results : List Tpl)
+    (hw : (Step.read results).wellFormed = true) (id : Nat) (f : HVal → HVal)
+    (hid : id ∈ idsL ((step copyDiscipline w (.read results)).held.drop w.held.length)) :
+    ((step copyDiscipline w (.read results)).mutate id f).store = w.store ∧
+    ((step copyDiscipline w (.read results)).mutate id f).cache = w.cache ∧
+    ((step copyDiscipline w (.read results)).mutate id f).held.take w.held.length = w.held :=
+  Proofs.C07.result_private w hb results hw id f hid
+
+example : Bounded sampleWorld ∧ sampleHandOut.wellFormed = true ∧
+    14 ∈ idsL ((step copyDiscipline sampleWorld sampleHandOut).held.drop sampleWorld.held.length) := by
+  decide +kernel
 
 /-- **An in-place edit of one stored document never shows in another**: the object edited lies
     in document `i`, every other stored document stays as it is. -/
@@ -222,7 +319,7 @@ theorem projection_copy_needed :
         (scribbleFn [] [("marker", .null)])).store
       ≠ (step uncopiedProjectionTable sampleWorld sampleProjectedRead).store ∧
     Sep (step copyDiscipline sampleWorld sampleProjectedRead) ∧
-    ((step copyDiscipline sampleWorld sampleProjectedRead).mutate 11
+    ((step copyDiscipline sampleWorld sampleProjectedRead).mutate 14
         (scribbleFn [] [("marker", .null)])).store
       = (step copyDiscipline sampleWorld sampleProjectedRead).store := by
   refine ⟨by decide +kernel, ?_, by decide +kernel, ?_⟩
@@ -230,7 +327,34 @@ theorem projection_copy_needed :
     have := congrArg (fun st => st.map HVal.size) h
     revert this
     decide +kernel
-  · exact mutate_held_noop _ 11 _ (by decide +kernel) (by decide +kernel)
+  · exact mutate_held_noop _ 14 _ (by decide +kernel) (by decide +kernel)
+
+/-- And for what a cursor keeps: the table in which a cursor hands out its cached documents
+    themselves (the behaviour before the fix "a cursor hands out a copy of its cached result each
+    time", b973460; known finding `cursor-cache-alias` until then) puts the cursor's objects into
+    the caller's hands — the caller editing what `next(cursor)` returned edits the cache, and
+    `cursor.rewind()` / `cursor[0]` then show the edit.  With the code's table the caller gets
+    objects of its own and the cache stays as it was. -/
+def uncopiedCursorTable : Table where
+  disc
+    | .cursorOut => [.noCopy]
+    | p => copyDiscipline.disc p
+
+theorem cursor_copy_needed :
+    ¬ Sep (step uncopiedCursorTable sampleWorld sampleHandOut) ∧
+    ((step uncopiedCursorTable sampleWorld sampleHandOut).mutate 11
+        (scribbleFn [] [("", .str "changed by the caller")])).cache
+      ≠ (step uncopiedCursorTable sampleWorld sampleHandOut).cache ∧
+    Sep (step copyDiscipline sampleWorld sampleHandOut) ∧
+    ((step copyDiscipline sampleWorld sampleHandOut).mutate 14
+        (scribbleFn [] [("", .str "changed by the caller")])).cache
+      = (step copyDiscipline sampleWorld sampleHandOut).cache := by
+  refine ⟨by decide +kernel, ?_, by decide +kernel, ?_⟩
+  · intro h
+    have := congrArg (fun st => st.map HVal.size) h
+    revert this
+    decide +kernel
+  · exact mutate_held_keeps_cache _ 14 _ (by decide +kernel) (by decide +kernel)
 
 /-! ### arguments -/
 
